@@ -22,6 +22,14 @@ var c11Fragments = []struct{ name, src string }{
 	{"union-call", "zqt = true ? \"s\" : :sym\nzqt.to_s\nzqm = 2 * 3"},
 	{"nested-if", "zqp = true ? 1 : nil\nif zqp.nil?\n  zqq = 1\nelse\n  if zqp.is_a?(Integer)\n    zqp + 1\n  end\nend"},
 	{"case-in", "zqk = 1\ncase zqk\nin Integer\n  zqk + 1\nelse\n  zqk.to_s\nend"},
+	// fragments that end in a modifier form, a ternary, a rescue block, a case/when
+	{"modifier-while", "zqv = 0\nzqv += 1 while zqv < 3"},
+	{"modifier-until", "zqv = 0\nzqv += 1 until zqv > 3"},
+	{"modifier-if", "zqv = 0\nzqv = 2 if zqv == 0"},
+	{"modifier-unless", "zqv = 0\nzqv = 2 unless zqv == 1"},
+	{"ternary", "zqv = 0\nzqy = zqv == 0 ? \"s\" : nil"},
+	{"begin-rescue", "begin\n  zqv = 1\nrescue => zqe\n  zqv = 2\nend"},
+	{"case-when", "zqk = true ? 1 : \"s\"\ncase zqk\nwhen 1\n  zqr = 1\nwhen \"s\"\n  zqr = 2\nelse\n  zqr = nil\nend"},
 }
 
 // dropAndShift removes records on rows (k, k+n] and shifts later rows back by n.
@@ -72,7 +80,7 @@ func dropAndShift(out, file string, k, n int) string {
 func c11(x *ctx) {
 	r := x.run
 	thorough := x.tier == "thorough"
-	r.Rule = "hosts (corpus and generated programs) x fragments (12 self-contained fragments over fresh zq* names: conditionals, blocks, array-literal statement, builtin calls on unions, hash merge, push, loops, an erroneous call) " +
+	r.Rule = "hosts (corpus and generated programs) x fragments (18 self-contained fragments over fresh zq* names: conditionals, blocks, array-literal statement, builtin calls on unions, hash merge, push, loops, modifier while/until/if/unless, ternary, begin/rescue, case/when and case/in) " +
 		"x every statement boundary whose next statement is not a block closer/branch keyword and that is not the end of the file; records outside the fragment's rows must equal the host's records after the row shift; " +
 		"plus appending a whole independent program (all ordered pairs of small corpus programs with disjoint user names). non-trivial = host prints records"
 	r.Assumptions = []string{"statement boundaries come from the harness's conservative line scanner; a boundary directly before end/else/elsif/when/in/rescue/ensure or at end of file is excluded (the fragment would become the last statement of a body)"}
@@ -121,6 +129,9 @@ func c11(x *ctx) {
 						continue
 					}
 					if !thorough && !strings.HasPrefix(p.Name, "./g_") && fi >= 4 && k%3 != 0 {
+						continue
+					}
+					if !thorough && !strings.HasPrefix(p.Name, "./g_") && fi >= 11 && k%6 != 0 {
 						continue
 					}
 					flines := strings.Split(f.src, "\n")
